@@ -75,8 +75,9 @@ pub fn make_archive_with(ctx: &mut Ctx, max_len: usize, big: bool, force_writer:
         } else {
             // rolling hash with an average of 1 MiB and no minimum: chunk sizes from a few bytes
             // to several MiB side by side
-            spec.cfg = gen::Cfg { algo: if gen::chance(1, 2) { gen::Algo::RollSum } else { gen::Algo::BuzHash }, window: 32, min: 64, max: 4 << 20, bits: 19, avg: 1 << 20 };
-            (3 << 20) + gen::draw(3 << 20) as usize
+            let bits = 19 + gen::draw(3);
+            spec.cfg = gen::Cfg { algo: if gen::chance(1, 2) { gen::Algo::RollSum } else { gen::Algo::BuzHash }, window: 32, min: 64, max: 4 << 20, bits, avg: 2 << bits };
+            (3 << 20) + gen::draw(5 << 20) as usize
         };
         sspec = gen::SourceSpec { kind: "random", len, seed: gen::t(|t| t.seed64()), param: 0 };
         data = gen::expand(&sspec);
